@@ -122,4 +122,21 @@ CHECKS = {
         "required_probes": ["causally_ordered_history", "concurrent_history", "reindex", "reopen_same_entries"],
         "assumptions": COMMON_ASSUMPTIONS + ["each reaction of go-orbit-db/go-ipfs-log goroutines between two simulator events runs to quiescence (atomic step)"],
     },
+    "C07": {
+        "pkg": ".",
+        "test": "TestVerifC07",
+        "level": "exploration",
+        "proc_timeout": "60m",
+        "quick": {"procs": 32, "checks_per_proc": 300},
+        "thorough": {"procs": 64, "checks_per_proc": 2500},
+        "rule": "one case = a seeded sequence of 1-6 (densely) or 7-30 contact operations (enqueue, mark sent, incoming received, "
+                "discard, accept, block, unblock; malformed variants: short/long/missing seed, bad key, own key) on 1-2 contacts by a "
+                "writer device, with reopen of the account group at drawn points, and a second device that replays the log online "
+                "under seeded delivery faults or afterwards in one batch; every operation is compared with the appendix-A table "
+                "(refused / appended event) and every reported contact record with the reference fold. non-trivial = a malformed "
+                "input, a reopen or at least one simulator-chosen delivery occurred; distinct = distinct hash of the operation/"
+                "outcome/delivery trace.",
+        "required_probes": ["refused_operation", "replica_checked"],
+        "assumptions": COMMON_ASSUMPTIONS + ["nil public keys are not generated: the service layer never passes one to the store"],
+    },
 }
